@@ -222,7 +222,10 @@ func (w *vpC14) InfoSync(abci.RequestInfo) (*abci.ResponseInfo, error) {
 	w.infoExact = true
 	switch w.adversarial("restored-app-reports", 4) {
 	case 1:
-		res.LastBlockAppHash = []byte{0xBB}
+		// any other hash of length 0..2 (the trusted one has 2 bytes): empty, a strict prefix, a different one
+		b := vp.Bytes("reported-hash", vp.Choice("reported-hash-len", 3))
+		vp.Assume(!bytes.Equal(b, vpTrustedHash(h)))
+		res.LastBlockAppHash = b
 		w.infoExact = false
 	case 2:
 		res.LastBlockHeight--
